@@ -7,7 +7,7 @@ DESCRIPTION = {
              "framing + third-party codecs; the router announces RawSocket maximum lengths 2^9..2^24, the WebSocket side sets maxMessagePayloadSize).  Hypothesis draws a history: "
              "registered endpoints with behaviours {returns value / CallResult / None / something not serializable / a value whose serialized size is just below, at, above the "
              "limit; raises ApplicationError / a define()d class / an undefined exception / an exception with unserializable args; returns a pending result resolved or failed "
-             "later; a 'shielded' asynchronous endpoint that swallows cancellation and still returns a value (Deferred errback / coroutine catching CancelledError); "
+             "later; a 'chained' one (a Deferred that has fired and waits on a Deferred returned by its callback / a Task awaiting the inner future); a 'shielded' asynchronous endpoint that swallows cancellation and still returns a value (Deferred errback / coroutine catching CancelledError); "
              "emits 0-3 progress results first}, several concurrent INVOCATIONs (receive_progress on/off, caller details on/off, args/kwargs shapes), resolve/fail of pending "
              "results, INTERRUPT at every point (pending, after completion, unknown id, and in the *same read* as its INVOCATION so that no event-loop turn separates them) unregistration of a procedure while its invocations are still running, and unrelated "
              "traffic.  Oracle: for every invocation id, while the transport is up, the bytes "
@@ -18,7 +18,7 @@ DESCRIPTION = {
     "assumptions": ["the transport stays up for the whole history (transport loss is C06/C13)"],
 }
 
-BEHAVIOURS = ["value", "value", "callresult", "none", "unserializable", "oversized", "raise-app", "raise-defined", "raise-undefined", "raise-unserializable-args", "pending", "pending", "progress", "shielded"]
+BEHAVIOURS = ["value", "value", "callresult", "none", "unserializable", "oversized", "raise-app", "raise-defined", "raise-undefined", "raise-unserializable-args", "pending", "pending", "progress", "shielded", "chained"]
 
 
 def plan(tier, seed):
@@ -214,6 +214,19 @@ class World:
                 raise ApplicationError("com.myapp.error.app", object())
             f = world.txaio.create_future()
             world.pending.append({"proc": k, "fut": f, "inv": world.next_inv})
+            if beh == "chained":
+                # callback style: the returned Deferred has already fired and is paused on a Deferred one of its callbacks returned (Deferred chaining);
+                # under asyncio the closest idiom is a Task awaiting the inner future.  Pending until the inner step completes; cancellable.
+                if world.tx.d.fw == "twisted":
+                    from twisted.internet.defer import succeed
+                    outer = succeed("first step done")
+                    outer.addCallback(lambda _: f)
+                    return outer
+                import asyncio
+
+                async def co2():
+                    return await f
+                return asyncio.ensure_future(co2())
             if beh == "shielded":
                 # an asynchronous endpoint that survives cancellation: it catches the cancel and still completes with a value
                 if world.tx.d.fw == "twisted":
@@ -337,7 +350,7 @@ class World:
             for p in self.pending:
                 if p["inv"] == iid:
                     p["done"] = True
-            if beh == "pending":
+            if beh in ("pending", "chained"):
                 self.expect_terminal(inv, "interrupted")
             elif beh == "shielded":
                 self.expect_terminal(inv, "shielded-interrupted")
@@ -348,7 +361,7 @@ class World:
                     pass
                 else:
                     self.expect_terminal(inv)
-        elif beh in ("pending", "shielded"):
+        elif beh in ("pending", "shielded", "chained"):
             inv["state"] = "pending"
         else:
             inv["state"] = "done"
@@ -514,8 +527,8 @@ def histories(col, seed, n, kind):
         behs = set(i["beh"] for i in w.invs)
         nt = len(w.invs) >= 2 or bool(behs & {"unserializable", "oversized", "raise-unserializable-args"}) or any(s[0] == "interrupt" and s[2] == "pending" for s in c["steps"]) or any(s[0] == "invoke" and len(s) > 5 for s in c["steps"])
         col.case(nt, dig=c, cls=["tx:%s" % kind, "ser:" + c["ser"]] + ["beh:" + b for b in sorted(behs)] + (["invocation+interrupt-in-one-read"] if any(s[0] == "invoke" and len(s) > 5 for s in c["steps"]) else []) + (["unregister-while-pending"] if w.unregistered and any(
-                     i["beh"] in ("pending", "shielded") for i in w.invs if i["proc"] in w.unregistered) else []) + (["limit:%s" % (w.limit,)] if w.limit else []) +
-                 (["concurrent>=2"] if sum(1 for i in w.invs if i["beh"] == "pending") >= 2 else []),
+                     i["beh"] in ("pending", "shielded", "chained") for i in w.invs if i["proc"] in w.unregistered) else []) + (["limit:%s" % (w.limit,)] if w.limit else []) +
+                 (["concurrent>=2"] if sum(1 for i in w.invs if i["beh"] in ("pending", "chained")) >= 2 else []),
                  sample={"procs": c["procs"], "steps": c["steps"], "ser": c["ser"], "limit": w.limit})
     run_hypothesis(col, "hist", strategy(kind), body, n, seed)
 
